@@ -5,6 +5,22 @@ import json, sys
 TECH = "bounded symbolic execution of the real code: go/ssa of /repo's working tree interpreted over SMT terms, every branch and assertion decided by z3/cvc5 (single-byte conditions by an exact 256-value domain procedure), counterexamples replayed natively"
 
 claimed = {
+ "C01": dict(
+   text="Bounded model checking of the real memory driver: (A) every history of up to H=3 (thorough 4) NewGraph/Graph/DeleteGraph/GraphNames operations with symbolic names against a reference name list; (B) one graph whose pre-state is built by the real code from Add(b1);Remove(b2), then one arbitrary Add or Remove and interference on a second graph: Exist and the full listing must equal the reference set semantics (component-wise triple identity, each triple once, other graph invisible) for every stored and one fresh symbolic probe triple; (C) drop + re-create starts empty. Triple components are solver variables over a small universe, so which triples coincide is decided by the solver, not sampled.",
+   note="Universe {a,b} per component byte; batches of <= 1 (pre-state <= 2 thorough); SHA-1 injective; canonical schedule (single goroutine).",
+   ref="DESIGN.md §4 C01"),
+ "C02": dict(
+   text="Bounded model checking of all ten indexed lookup methods of the memory driver against a scan: pre-state Add(b1);Remove(b2) with symbolic triples (immutable and temporal predicates sharing identifiers, two spellings of one instant), lookup arguments fresh symbolic components; every delivered element must derive from a stored triple whose fixed components equal the arguments (identifier, kind and instant for predicates), each stored triple at most once, and every stored matching triple must be delivered. The driver's missing predicate-kind comparison is reproduced and reported as a known finding.",
+   note="Bounds: pre-state <= 1 triple + 1 removal per method in quick, <= 2 + 1 in thorough; default lookup options; results identified by pointer identity of the stored components.",
+   ref="DESIGN.md §4 C02"),
+ "C09": dict(
+   text="Bounded model checking of lookup options on the real driver: for lookup methods Objects, TriplesForPredicate, TriplesForSubjectAndPredicate (all ten in thorough), every combination of lower/upper window bound from the anchor pool (incl. equal to an anchor, lower>upper), no filter / LatestAnchor / {latest,isImmutable,isTemporal} x {predicate,object} field, and every (MaxElements, Offset) in [0,3]^2: the unpaged result must be exactly the default-options result filtered by the definition (closed window keeping immutables, filter by kind, latest per identifier), the paged result the k-th block of the unpaged sequence, and the options value unchanged. A second harness makes MaxElements and Offset symbolic over (0,2^32) and finds the int overflow of their product. Two known findings.",
+   note="Assume-guarantee with C02 (reference = post-processed default-options lookup); anchors from a concrete pool; pre-state 1-2 triples (2-3 thorough).",
+   ref="DESIGN.md §4 C09"),
+ "C05": dict(
+   text="Bounded model checking of print/parse round trips on the real code: nodes (type/id up to L symbolic bytes in the documented domain), predicates (ids of up to L arbitrary non-whitespace bytes incl. quotes, backslashes, brackets, non-ASCII; immutable or anchored at pool instants in two zones with nanoseconds), literals (bool, text, blob, float64 pool; int64 over the full 64-bit range via witness-digit formatting and the interpreted strconv.ParseInt, decided by cvc5 bv-as-int; text long enough to contain the type delimiter) and triples through triple.Parse (regexp package interpreted): parse(print(v)) must succeed, equal v component-wise and re-print identically. Two delimiter-collision defects are known findings.",
+   note="Bounds L=2-3 quick, 3-4 thorough; float64 values and anchors from concrete pools (native formatting); the graph-level WriteGraph/ReadIntoGraph round trip is covered for small graphs by HarnessC05Graph when registered.",
+   ref="DESIGN.md §4 C05"),
  "C06": dict(
    text="Bounded model checking of the real UUID encoders with SHA-1 abstracted as an injective function: for two symbolic nodes (type/id up to L bytes each, documented domain), literals (all 25 kind pairs; bool, full-range int64, float64 from a pool of 9, text/blob up to L bytes; plus text of 4-5 bytes against bool), predicates (immutable/temporal, symbolic nanoseconds, three zones) and triples over a mixed object pool, the solver decides UUID(a)=UUID(b) <=> a and b are the same value, Triple.Equal likewise, that UUID() never panics for any int64, and that a second call (also with a dirty pooled buffer) returns the same bytes. Known findings (no separator between node type and id; no literal type tag) are reproduced natively and reported as KNOWN-FINDING; anything else is a violation.",
    note="SHA-1 collisions are assumed away (uninterpreted injective functions / real SHA-1 on concrete input); bounds L=2 quick, 3 thorough; temporal seconds from a pool of three; float64 from a pool.",
